@@ -359,12 +359,13 @@ func ruleSizeBeforeOp(c *Ctx, r *Report, prefix string) {
 
 // ---------- xz writer container marshalling (C02) ----------
 
-func ruleXZWriterFormat(c *Ctx, r *Report, prefix string) {
+// ruleCheckEncoding: CRC32 / CRC64 check values are stored little-endian (shared by reader and
+// writer: a symmetric change keeps every round trip green but rejects / produces foreign files).
+func ruleCheckEncoding(c *Ctx, r *Report, prefix string) {
 	rule := prefix + "TM-XZW"
 	putLE32 := c.Func("", "putUint32LE")
 	putLE64 := c.Func("", "putUint64LE")
-	putUvarint := c.Func("", "putUvarint")
-	if putLE32 == nil || putLE64 == nil || putUvarint == nil {
+	if putLE32 == nil || putLE64 == nil {
 		return
 	}
 	// little-endian helpers by CE
@@ -418,6 +419,16 @@ func ruleXZWriterFormat(c *Ctx, r *Report, prefix string) {
 		}
 		r.Check(ok, rule, hs.typ+".Sum", c.Pos(fn.Pos()), "check value encoded little-endian via "+hs.put, hs.typ+".Sum does not encode the check value with "+hs.put+" (the .xz format stores CRC32/CRC64 little-endian; reader and writer share this method, so round trips cannot notice)")
 	}
+}
+
+func ruleXZWriterFormat(c *Ctx, r *Report, prefix string) {
+	rule := prefix + "TM-XZW"
+	putUvarint := c.Func("", "putUvarint")
+	putLE32 := c.Func("", "putUint32LE")
+	if putUvarint == nil || putLE32 == nil {
+		return
+	}
+	ruleCheckEncoding(c, r, prefix)
 	// uvarint by CE on boundary values
 	{
 		ok := true
